@@ -98,7 +98,7 @@ let bulk_data_sx = function
   | M.BAddMeta (t, i, m) -> L [A "addmeta"; qs t; json_sx i; meta_sx m]
   | M.BRevert (i, f, a, m) -> L [A "revert"; zout i; b01 f; b01 a; meta_sx m]
   | M.BDelMeta (t, i, k) -> L [A "delmeta"; qs t; json_sx i; qs k]
-let bulk_sx l = L (A "bulk" :: List.map (function None -> A "nil" | Some e -> L [qs e.M.b_action; qs e.M.b_ik; bulk_data_sx e.M.b_data]) l)
+let bulk_sx l = L (A "bulk" :: List.map (fun e -> L [qs e.M.b_action; qs e.M.b_ik; bulk_data_sx e.M.b_data]) l)
 
 let () = register "apidec" (fun c ->
   match c with
